@@ -51,17 +51,17 @@ def gen_requests(rnd, quick):
               "3": {"otype": 4, "owner": "alice", "state": 2}, "4": {"otype": 8, "owner": "bob", "state": 1},
               "5": {"otype": 3, "owner": "alice", "state": 2}}
     g.created = 5
-    for k in range(700 if quick else 6000):
+    for k in range(1000 if quick else 6000):
         req = g.request()
         if g.p(0.1):
             req["maxsize"] = g.ch([0, 1, 100, 4096, 2 ** 31 - 1, 2 ** 31])
         out.append((req, "gen"))
-    per = 2 if quick else 12
+    per = 3 if quick else 12
     for v in VERSIONS:
         for op in OPS + ["unsupported"]:
             for k in range(per):
                 out.append((g.request(nitems=1, version=v, ops=[op]), "cell"))
-    for k in range(60 if quick else 600):
+    for k in range(80 if quick else 600):
         n = g.ch([2, 3, 5, 8])
         out.append((g.request(nitems=n), "batch"))
     for req, _ in out:
@@ -80,8 +80,8 @@ def why_outside(req, mo):
         if not bad:
             return "header field out of range"
         return "item outside the domain: " + bad[0]
-    if not mo["valid"]:
-        return "tree not valid"
+    if not mo["short"]:
+        return "frame of 2^32 bytes or more"
     return "?"
 
 
@@ -126,6 +126,9 @@ def run_gen(ctx, rnd, cov):
                 first.setdefault("bytes", {"req": req, "implementation": real.hex(), "model": mo["hex"]})
             else:
                 cov["byte_equal"] += 1
+            if not mo["valid"]:
+                cov["validity_failures"] += 1
+                first.setdefault("valid", {"req": req})
             if not mo["roundtrip"]:
                 cov["roundtrip_failures"] += 1
                 first.setdefault("roundtrip", {"req": req, "decoded": mo["decoded"]})
@@ -144,6 +147,8 @@ def run_gen(ctx, rnd, cov):
         else:
             w = why_outside(req, mo)
             cov["outside"][w] = cov["outside"].get(w, 0) + 1
+            if real is None:
+                cov["outside_real_encoder_raises"][exc] = cov["outside_real_encoder_raises"].get(exc, 0) + 1
             if real is not None and real.hex() == mo["hex"]:
                 cov["outside_but_equal"] += 1
             if real is not None and mo["ok"] is False and req["version"] in VERSIONS and "unsupported" not in ops:
@@ -160,6 +165,12 @@ def run_gen(ctx, rnd, cov):
                    "%d encodable requests are not decoded back to norm r by the decoder model although "
                    "C19Encode.request_roundtrip says so" % cov["roundtrip_failures"],
                    dict(first["roundtrip"], broken="theorem C19Encode.request_roundtrip vs Drivers/EncodeRequest.lean"),
+                   no_input=True)
+    if "valid" in first and not concrete:
+        ctx.report("correspondence:request-tree-valid",
+                   "%d encodable requests have a tree that is not a valid M1 item although C19Encode.encRequest_valid "
+                   "says so" % cov["validity_failures"],
+                   dict(first["valid"], broken="theorem C19Encode.encRequest_valid vs Drivers/EncodeRequest.lean"),
                    no_input=True)
     if "realread" in first and not concrete:
         ctx.report("correspondence:request-model-bytes-real-read",
@@ -289,8 +300,8 @@ def run(ctx, rng=None):
     t0 = time.time()
     rnd = rng or random.Random("encode-request-%s" % ctx.seed)
     cov = {"requests": 0, "by_class": {}, "by_version": {}, "real_encoder_accepts": 0, "encodable": 0,
-           "encodable_by_op": {}, "exact": 0, "byte_equal": 0, "byte_divergences": 0, "roundtrip_failures": 0,
-           "real_read_of_model_bytes": 0, "real_read_failures": 0, "outside": {}, "outside_but_equal": 0,
+           "encodable_by_op": {}, "exact": 0, "byte_equal": 0, "byte_divergences": 0, "roundtrip_failures": 0, "validity_failures": 0,
+           "real_read_of_model_bytes": 0, "real_read_failures": 0, "outside": {}, "outside_real_encoder_raises": {}, "outside_but_equal": 0,
            "outside_but_real_accepts": 0, "monitor_failures": 0, "seconds": {},
            "client_frames": 0, "client_by_op": {}, "client_unmodelled": {}, "client_divergences": 0,
            "client_decoded_equal": 0, "client_reencodable": 0, "client_reencoded_equal": 0, "client_equal_by_op": {}}
